@@ -24,6 +24,9 @@ def generate(seed, tier, enlarged=False):
          'emit_step': 2, 't0': 0},
         {'kind': 'sched', 'procs': [{'ts': ['const', 1.0], 'cond': ['true']}], 'calls': [[1.0, 'update'], [0, 'update']],
          'emit_step': 1, 't0': 0},
+        # corpus: known finding K1 (rows out of order after a lagging re-poll)
+        {'kind': 'sched', 'procs': [{'ts': ['script', [2.0, 0.5]], 'cond': ['true']}, {'ts': ['const', 1.0], 'cond': ['true']}],
+         'calls': [[1.0, 'run'], [1.0, 'run'], [1.0, 'update']], 'emit_step': 1, 't0': 0},
     ]
     for i in range(n):
         cases.append(sched.gen_case(rng, max_procs=4 if tier == 'quick' else 8, scripted=False,
